@@ -10,13 +10,6 @@ use indicatif::{MultiProgress, ProgressBar, ProgressDrawTarget, ProgressFinish, 
 use verif_harness::spy::{Spy, TOp};
 use verif_harness::*;
 
-/// A TAB inside a tick string / progress character of the style reaches the terminal unexpanded
-/// (src/style.rs:275 `buf.push_str(self.current_tick_str(state))`, :698-708 BarDisplay; theorem
-/// C16_no_tab_refuted, reproduced by the corpus below).  Until the class
-/// `tab-in-tick-or-progress-chars` is registered as an open known finding (known_findings.json is
-/// not this property's file) the oracle only counts it.
-const REPORT_GLYPH_TAB_FINDING: bool = true;
-
 const KEYS: [&str; 4] = ["k0", "k1", "k2", "k3"];
 const TERM_W: u16 = 40;
 
@@ -91,12 +84,18 @@ struct Glyphs {
     progress_chars: Option<String>,
 }
 impl Glyphs {
-    fn has_tab(&self) -> bool {
-        self.tick_strings.as_ref().map_or(false, |t| t.iter().any(|x| x.contains('\t'))) || self.progress_chars.as_ref().map_or(false, |p| p.contains('\t'))
+    fn tick_tab(&self) -> bool {
+        self.tick_strings.as_ref().map_or(false, |t| t.iter().any(|x| x.contains('\t')))
     }
+    /// ProgressStyle::progress_chars rejects such an argument (style.rs:157-158)
+    fn pchars_tab(&self) -> bool {
+        self.progress_chars.as_ref().map_or(false, |p| p.contains('\t'))
+    }
+    /// the TABs of the tick strings replaced by [x] (the progress characters are left alone: a
+    /// style with a TAB there is rejected by the builder in both runs)
     fn sanitised(&self, x: char) -> Glyphs {
         let r = |s: &String| s.replace('\t', &x.to_string());
-        Glyphs { tick_strings: self.tick_strings.as_ref().map(|t| t.iter().map(r).collect()), progress_chars: self.progress_chars.as_ref().map(r) }
+        Glyphs { tick_strings: self.tick_strings.as_ref().map(|t| t.iter().map(r).collect()), progress_chars: self.progress_chars.clone() }
     }
 }
 
@@ -318,6 +317,8 @@ enum Out {
     Draw(Vec<String>, Vec<String>),
     Got(String),
     Nothing,
+    /// the style builder panicked; no style was built, the bar was not touched
+    BuildPanic,
 }
 impl Out {
     fn coq(&self) -> String {
@@ -325,6 +326,7 @@ impl Out {
             Out::Draw(t, l) => format!("ODraw {} {}", clist(t.iter().map(|x| cstr(x))), clist(l.iter().map(|x| cstr(x)))),
             Out::Got(s) => format!("OGot {}", cstr(s)),
             Out::Nothing => "ONone".into(),
+            Out::BuildPanic => "OBuildPanic".into(),
         }
     }
 }
@@ -357,7 +359,10 @@ struct Reference {
     prefix: String,
     keys: KeyMap,
     tpl: Option<Vec<T>>, // None: the built-in default template
-    saved: Option<(KeyMap, Option<Vec<T>>)>,
+    saved: Option<(KeyMap, Option<Vec<T>>, Vec<String>)>,
+    /// the tick strings of the style in force and the number of tick() calls so far
+    ticks: Vec<String>,
+    tick: u64,
     on_finish: Fin,
     hidden: bool,
     finished: bool,
@@ -365,6 +370,10 @@ struct Reference {
     msg_shown: bool,
     lits_shown: bool,
     saved_tw: usize,
+}
+
+fn default_ticks() -> Vec<String> {
+    DEFAULT_TICKS.chars().map(|c| c.to_string()).collect()
 }
 
 fn expand(s: &str, tw: usize) -> String {
@@ -405,6 +414,13 @@ impl Reference {
                 T::Ph(h) if h.is_bare() => match h.key {
                     Key::Msg => whole.push_str(&expand(&self.msg, self.tw)),
                     Key::Prefix => whole.push_str(&expand(&self.prefix, self.tw)),
+                    // the tick string of the moment, expanded like every other text: with the
+                    // CURRENT tab width, whenever the style or the width was set
+                    Key::Spinner => {
+                        let n = self.ticks.len();
+                        let t = if self.finished { &self.ticks[n - 1] } else { &self.ticks[(self.tick as usize) % (n - 1)] };
+                        whole.push_str(&expand(t, self.tw))
+                    }
                     Key::Custom(k) => {
                         if let Some((_, chunks)) = self.keys.iter().find(|(id, _)| *id == k) {
                             for c in chunks {
@@ -630,7 +646,7 @@ impl Gen {
 }
 
 fn glyph_tab(ops: &[Op]) -> bool {
-    ops.iter().any(|o| matches!(o, Op::SetStyleNew { gl, .. } if gl.has_tab()))
+    ops.iter().any(|o| matches!(o, Op::SetStyleNew { gl, .. } if gl.tick_tab() && !gl.pchars_tab()))
 }
 /// the same history with every TAB of a tick string / progress character replaced by [x]
 fn sanitise(ops: &[Op], x: char) -> Vec<Op> {
@@ -653,6 +669,7 @@ struct Exec {
     stale_fail: Option<String>,
     shape_fail: Option<String>,
     build_panic: bool,
+    accept_fail: Option<String>,
     /// (rendering, key number, width, text) of the numeric keys whose text is not constant
     pernum: Vec<(u64, u32, Option<u16>, String)>,
 }
@@ -687,6 +704,8 @@ fn execute(ops: &[Op], multi: bool) -> Exec {
         keys: vec![],
         tpl: None,
         saved: None,
+        ticks: default_ticks(),
+        tick: 0,
         on_finish: Fin::AndClear,
         hidden: false,
         finished: false,
@@ -699,6 +718,37 @@ fn execute(ops: &[Op], multi: bool) -> Exec {
     for (i, o) in ops.iter().enumerate() {
         // ---- reference bookkeeping (history-defined values) + distribution
         ex.counts.push(format!("op:{}", o.name()));
+        // ---- a fresh style is built first, away from the bar: the builder may reject its argument
+        let mut built: Option<ProgressStyle> = None;
+        if let Op::SetStyleNew { keys, gl, tpl, .. } = o {
+            match catch(|| make_style(ProgressStyle::with_template(&tpl_text(tpl)).expect("template"), keys, gl)) {
+                Ok(st) => {
+                    if gl.pchars_tab() && ex.accept_fail.is_none() {
+                        ex.accept_fail = Some(format!("op #{i} {}: progress_chars accepted a TAB", o.desc()));
+                    }
+                    built = Some(st);
+                }
+                Err(e) if gl.pchars_tab() && e.contains("progress chars must not contain tabs") => {
+                    // style.rs:157-158: no style exists, the bar was not touched, the history goes on
+                    ex.counts.push("event:builder-rejected-tab-in-progress-chars".into());
+                    if !spy.take().is_empty() && ex.shape_fail.is_none() {
+                        ex.shape_fail = Some(format!("op #{i} {}: a rejected style builder wrote to the terminal", o.desc()));
+                    }
+                    ex.outs.push(Out::BuildPanic);
+                    continue;
+                }
+                Err(e) => {
+                    // any other rejection (unequal / zero width progress characters ...) is C14's
+                    // subject and not part of a history: the caller drops such histories
+                    ex.build_panic = true;
+                    ex.panic = Some(format!("op #{i} {} panicked: {e}", o.desc()));
+                    if let Some(p) = pb.take() {
+                        std::mem::forget(p);
+                    }
+                    return ex;
+                }
+            }
+        }
         let mut expect_draw = false;
         let apply_fin = |rf: &mut Reference, f: &Fin| {
             rf.hidden = matches!(f, Fin::AndClear);
@@ -723,12 +773,13 @@ fn execute(ops: &[Op], multi: bool) -> Exec {
             Op::SetStyleNew { keys, tpl, gl, .. } => {
                 rf.keys = keys.clone();
                 rf.tpl = Some(tpl.clone());
+                rf.ticks = gl.tick_strings.clone().unwrap_or_else(default_ticks);
                 rf.lits_shown = false;
                 if rf.tw != 8 {
                     ex.counts.push("event:new-style-set-while-width-not-default".into());
                 }
-                if gl.has_tab() {
-                    ex.counts.push("style:tab-in-tick-strings-or-progress-chars".into());
+                if gl.tick_tab() {
+                    ex.counts.push("style:tab-in-tick-strings".into());
                 }
                 if gl.tick_strings.is_some() {
                     ex.counts.push("style:own-tick-strings".into());
@@ -745,13 +796,14 @@ fn execute(ops: &[Op], multi: bool) -> Exec {
                 }
             }
             Op::SaveStyle => {
-                rf.saved = Some((rf.keys.clone(), rf.tpl.clone()));
+                rf.saved = Some((rf.keys.clone(), rf.tpl.clone(), rf.ticks.clone()));
                 rf.saved_tw = rf.tw;
             }
             Op::RestoreStyle => {
-                if let Some((k, t)) = rf.saved.clone() {
+                if let Some((k, t, ti)) = rf.saved.clone() {
                     rf.keys = k;
                     rf.tpl = t;
+                    rf.ticks = ti;
                     if rf.saved_tw != rf.tw {
                         ex.counts.push("event:saved-style-restored-after-width-change".into());
                     }
@@ -788,7 +840,11 @@ fn execute(ops: &[Op], multi: bool) -> Exec {
                 expect_draw = true;
             }
             Op::WithPrefix(x) => rf.prefix = x.clone(),
-            Op::Tick | Op::Println(_) => expect_draw = true,
+            Op::Tick => {
+                rf.tick += 1;
+                expect_draw = true
+            }
+            Op::Println(_) => expect_draw = true,
             Op::GetMessage => rf.msg_shown = true,
             Op::GetPrefix => {}
         }
@@ -841,7 +897,6 @@ fn execute(ops: &[Op], multi: bool) -> Exec {
         }
         // ---- the implementation
         let mut got: Option<String> = None;
-        let in_builder = std::cell::Cell::new(false);
         // Calls taking &self run on a reference (a panic must not drop the bar while unwinding:
         // the drop would draw again); the consuming builders take the bar out and put it back.
         let res = catch(|| match o {
@@ -849,10 +904,8 @@ fn execute(ops: &[Op], multi: bool) -> Exec {
                 let p = pb.take().unwrap();
                 pb = Some(p.with_tab_width(*n));
             }
-            Op::SetStyleNew { keys, gl, tpl, builder } => {
-                in_builder.set(true);
-                let st = make_style(ProgressStyle::with_template(&tpl_text(tpl)).expect("template"), keys, gl);
-                in_builder.set(false);
+            Op::SetStyleNew { builder, .. } => {
+                let st = built.take().unwrap();
                 if *builder {
                     let p = pb.take().unwrap();
                     pb = Some(p.with_style(st));
@@ -911,9 +964,6 @@ fn execute(ops: &[Op], multi: bool) -> Exec {
             }
         });
         if let Err(e) = res {
-            // a style builder that rejects its argument (unequal / zero width progress characters,
-            // C14's subject) is not part of a history: the caller drops such histories
-            ex.build_panic = in_builder.get();
             ex.panic = Some(format!("op #{i} {} panicked: {e}", o.desc()));
             if let Some(p) = pb.take() {
                 std::mem::forget(p);
@@ -1098,17 +1148,17 @@ fn report(s: &mut Session, ops: &[Op], ex: &Exec, twin: Option<&Exec>, nums: &[(
     }
     if let Some(d) = &ex.tab_fail {
         // Which text did the TAB come from?  Decided by the twin run: the same history with the
-        // TABs of the tick strings / progress characters replaced by another character.
+        // TABs of the tick strings replaced by another character.
         let from_glyphs = matches!(twin, Some(t) if t.tab_fail.is_none() && t.panic.is_none());
         if from_glyphs {
-            if REPORT_GLYPH_TAB_FINDING {
-                s.fail("tab-in-tick-or-progress-chars", format!("{d} (no TAB is written when the tick strings / progress characters are TAB-free)"), desc.clone());
-            } else {
-                s.count("unregistered-finding:tab-in-tick-or-progress-chars");
-            }
+            // D29, fixed by /repo 6ff82af: a regression is a violation like any other
+            s.fail("tab-in-tick-or-progress-chars", format!("{d} (no TAB is written when the tick strings are TAB-free)"), desc.clone());
         } else {
             s.fail("tab-reached-terminal", d.clone(), desc.clone());
         }
+    }
+    if let Some(d) = &ex.accept_fail {
+        s.fail("tab-progress-chars-accepted", d.clone(), desc.clone());
     }
     if let Some(d) = &ex.getter_fail {
         s.fail("getter-not-expanded", d.clone(), desc.clone());
@@ -1196,7 +1246,7 @@ fn main() {
     let header = "From IndModel Require Import Base Tabs.\nFrom IndModel Require Padded.\nOpen Scope N_scope.\n";
     let mut s = Session::new(&a, "C16", header, "(N * list (N * N) * list (N * text) * list (N * N * option N * text) * list op * list out)%type", "c16_check");
     s.shard_size = 120;
-    s.rule = "histories (length 1..30) of set_tab_width/with_tab_width, set_style/with_style (fresh style, style().template(), saved clone), set_message/with_message/set_prefix/with_prefix/finish_with_message/abandon_with_message/with_finish/finish_using_style, tick, println (texts with TABs, several lines, empty), message()/prefix() on one bar drawing to a recording TermLike of 40 columns; texts of 0..7 characters with TAB probability 1/3 (also tab-free and tab-only), long messages (8..60) for truncation, tab widths 0,1,2,3,4,8,16 and random up to 40, templates of 0..6 parts; 2 in 5 histories are 'rich': placeholders of every kind (msg, prefix, custom, wide_msg, wide_bar, bar, spinner, 12 numeric keys) with alignment / width / truncation / style / alt style, and styles with their own tick strings / progress characters, a third of those with TABs (each such history is also run with those TABs replaced: the twin decides the failure class); every history is compared with the model; non-trivial = at least 2 ops; distinct = distinct history text".into();
+    s.rule = "histories (length 1..30) of set_tab_width/with_tab_width, set_style/with_style (fresh style, style().template(), saved clone), set_message/with_message/set_prefix/with_prefix/finish_with_message/abandon_with_message/with_finish/finish_using_style, tick, println (texts with TABs, several lines, empty), message()/prefix() on one bar drawing to a recording TermLike of 40 columns; texts of 0..7 characters with TAB probability 1/3 (also tab-free and tab-only), long messages (8..60) for truncation, tab widths 0,1,2,3,4,8,16 and random up to 40, templates of 0..6 parts; 2 in 5 histories are 'rich': placeholders of every kind (msg, prefix, custom, wide_msg, wide_bar, bar, spinner, 12 numeric keys) with alignment / width / truncation / style / alt style, and styles with their own tick strings / progress characters, a third of the tick strings with TABs (each such history is also run with those TABs replaced: the twin attributes a TAB that reaches the terminal), 4 in 9 progress-character arguments with a TAB (the builder must reject them and the history goes on with the old style); every history is compared with the model; non-trivial = at least 2 ops; distinct = distinct history text".into();
     let mut g = Gen { r: Rng::new(a.seed) };
     let nums = probe_nums();
     let tab_twin = if console::measure_text_width("\t") == 0 { '\u{200b}' } else { '¤' };
@@ -1326,17 +1376,30 @@ fn main() {
             Op::SetPrefix("p\0\0".into()),
             Op::SetTabWidth(2),
         ],
-        // C16_no_tab_refuted: a TAB inside a tick string reaches the bar line unexpanded
+        // the former D29 witness (C16_no_tab_refuted_pre_6ff82af): a TAB inside a tick string is
+        // expanded at render time - with the width of the moment, also after a change, also when
+        // finished (last tick string), also through a saved clone and a derived template
         vec![
             Op::SetStyleNew {
                 keys: vec![],
-                gl: Glyphs { tick_strings: Some(vec!["\t".into(), "x".into()]), progress_chars: None },
+                gl: Glyphs { tick_strings: Some(vec!["\t".into(), "x\ty".into(), "\t!".into()]), progress_chars: None },
                 tpl: vec![T::Ph(bare(Key::Spinner))],
                 builder: false,
             },
             Op::Tick,
+            Op::SetTabWidth(2),
+            Op::SaveStyle,
+            Op::Tick,
+            Op::SetStyleDerived { tpl: vec![lit("\t"), T::Ph(bare(Key::Spinner)), T::Msg], builder: false },
+            Op::WithTabWidth(5),
+            Op::SetMessage("\tm".into()),
+            Op::RestoreStyle,
+            Op::SetTabWidth(0),
+            Op::SetTabWidth(3),
+            Op::FinishWithMessage("\t".into()),
         ],
-        // ... and inside the progress characters (accepted only if console gives TAB the same width)
+        // ... and inside the progress characters: the builder rejects it (style.rs:157-158), the bar
+        // keeps its style and goes on
         vec![
             Op::SetStyleNew {
                 keys: vec![],
@@ -1345,6 +1408,8 @@ fn main() {
                 builder: false,
             },
             Op::SetMessage("\tm".into()),
+            style(&vec![], &[T::Msg]),
+            Op::Tick,
         ],
     ];
     for ops in &corpus {
